@@ -5,9 +5,11 @@ From Coq Require Extraction.
 From Coq Require Import ExtrOcamlBasic.
 From CFDP Require Import Base.Prelude Model.Segments.
 From CFDP Require Import Model.Crc.
+From CFDP Require Import Model.CrcBits.
 
 Extraction Language OCaml.
 Extraction "model.ml"
   Crc.crc16 Crc.crc_bytes Crc.crc_frame_ok
+  CrcBits.receiver_frame_check CrcBits.receiver_consumed
   Segments.merge_seg Segments.gaps Segments.is_complete Segments.seg_len
   Segments.seg_end Segments.end_or_0.
